@@ -372,6 +372,8 @@ def generate(run_seed, tier):
             if u < 0.25:
                 tasks[t2].append({"op": "compile", "id": target})
                 g.used.append(target)
+                if wl.random() < 0.5:
+                    g.focus, g.sticky = target, 2          # a compiled object, then builders applied to it
             elif u < 0.4:
                 tasks[t2].append({"op": "gcp", "id": target, "discard": wl.random() < 0.5})
                 g.used.append(target)
@@ -390,6 +392,33 @@ def generate(run_seed, tier):
                 victim = wl.choice(g.used) if g.used and wl.random() < 0.7 else target
                 tasks[t2].append({"op": "drop", "id": victim})
                 dropped.add(victim)
+    if wl.random() < 0.10:
+        # scripted chain: wrap a leaf, compile (and match with) the wrapper, then apply further builders to the
+        # compiled object - whatever a builder copies from its operand must not include the compiled cache
+        t = wl.randrange(ntasks)
+        leaf = wl.choice([["lit", "ab"], ["lit", "Ab"], ["named", "AnyLetter"], ["new", "Either", ["lit", "ab"], ["lit", "cd"]]])
+        wrap = wl.choice([["new", "Capture", leaf], ["new", "Capture", leaf, "cw"], ["new", "Group", leaf, True], ["new", "Group", leaf],
+                          ["new", "Optional", leaf], leaf])
+        x = len(g.kinds)
+        g.kinds.append("general")
+        g.ub.append(0)
+        chain = [{"op": "build", "id": x, "recipe": wrap},
+                 wl.choice([{"op": "compile", "id": x}, {"op": "gcp", "id": x, "discard": False}])]
+        if wl.random() < 0.5:
+            chain.append({"op": "match", "id": x, "method": wl.choice(METHODS), "t": wl.choice(tids)})
+        for _ in range(wl.randint(1, 3)):
+            nid = len(g.kinds)
+            g.kinds.append("general")
+            g.ub.append(0)
+            rec = wl.choice([["call", "group", ["ref", x]], ["new", "Group", ["ref", x]], ["call", "group", ["ref", x], True],
+                             ["call", "capture", ["ref", x]], ["new", "Capture", ["ref", x], "cz"], ["call", "optional", ["ref", x]],
+                             ["op", "+", ["ref", x], ["lit", "!"]], ["call", "exactly", ["ref", x], 1], ["op", "+", ["ref", x], ""],
+                             ["new", "Either", ["ref", x], ["lit", "zz"]], ["call", "match_at_start", ["ref", x]]])
+            chain.append({"op": "build", "id": nid, "recipe": rec})
+            if wl.random() < 0.5:
+                chain.append({"op": "match", "id": nid, "method": wl.choice(METHODS), "t": wl.choice(tids)})
+        tasks[t].extend(chain)
+        texts.setdefault("t_chain", "ab AB cd Ab! zz abab")
     if wl.random() < (0.03 if tier == "quick" else 0.06):
         t = wl.randrange(ntasks)
         tasks[t].insert(wl.randint(0, len(tasks[t])), {"op": "churn", "n": wl.choice([300, 700, 1100])})
